@@ -52,6 +52,8 @@ func c17RerunList(tier string) []c17RCase {
 		{K: 6, B: 2, MaxRetries: 2, DelayMs: 1000, FailRuns: 99, Kill: true},
 		// killed after the log handler has already dealt with a rejected entity of this run
 		{K: 6, B: 1, Log: true, LogFirst: true, MaxRetries: 2, DelayMs: 1000, Fail: []int{0}, Kill: true, KillAt: 2},
+		// sink down during the first execution only; transform + capped log + reRun
+		{K: 10, B: 3, Log: true, LogFirst: true, MaxItems: 2, MaxRetries: 3, DelayMs: 1000, FailRuns: 1, Transform: true},
 	}
 	out = append(out, real...)
 	delays := []int{40}
@@ -70,6 +72,17 @@ func c17RerunList(tier string) []c17RCase {
 					b := 2
 					out = append(out, c17RCase{K: k, B: b, MaxRetries: r, DelayMs: d, FailRuns: t})
 					out = append(out, c17RCase{K: k, B: b, Log: true, LogFirst: r%2 == 0, MaxItems: (r + t) % 3, MaxRetries: r, DelayMs: d, FailRuns: t})
+				}
+				// sink down during the first t executions, healthy afterwards; transform + log (capped, so the failed
+				// execution leaves its batch for the re-run) + reRun: the clean re-run must be recorded without error and be the last
+				for _, t := range []int{1, 2} {
+					if t > r {
+						continue
+					}
+					for _, tr := range []bool{true, false} {
+						out = append(out, c17RCase{K: k + 2, B: 3, Log: true, LogFirst: r%2 == 1, MaxItems: 2, MaxRetries: r, DelayMs: d, FailRuns: t, Transform: tr})
+						out = append(out, c17RCase{K: k + 2, B: 1, Log: true, LogFirst: r%2 == 0, MaxItems: 1, MaxRetries: r, DelayMs: d, FailRuns: t, Transform: tr})
+					}
 				}
 				// log handler isolates a permanently rejected entity; reRun next to it
 				out = append(out, c17RCase{K: k, B: k, Log: true, LogFirst: true, MaxItems: 0, MaxRetries: r, DelayMs: d, Fail: []int{0}})
@@ -106,7 +119,7 @@ func c17RerunWork(ctx *Ctx) []c17RCase {
 	var mine []c17RCase
 	for i, c := range c17RerunList(ctx.Tier) {
 		if i%n == idx {
-			c.Transform = transform
+			c.Transform = c.Transform || transform
 			mine = append(mine, c)
 		}
 	}
@@ -310,6 +323,7 @@ func (st *c17State) runRerun(caseID string, pos int, c c17RCase) {
 		rej     int
 		nrep    int
 		killed  bool // the hub logged that the run was terminated (whatever it logged after that)
+		clean   bool // the sink was offered something, rejected nothing, nothing was reported, not killed
 	}
 	var sums []runSum
 	for ri, run := range runs {
@@ -321,6 +335,18 @@ func (st *c17State) runRerun(caseID string, pos int, c c17RCase) {
 				if e.Msg == "terminated" {
 					s.killed = true
 				}
+			}
+		}
+		s.clean = o.Requests > 0 && o.Rejected == 0 && o.NRep == 0 && !s.killed
+		if s.clean {
+			out.Stat("clean_executions", 1)
+			if ri > 0 {
+				out.Stat("clean_executions_after_failed_one", 1)
+			}
+			if s.end == "failed" || s.end == "failed-late" {
+				viol(c17CleanClass(ri, c.Transform), fmt.Sprintf("run %d: the sink accepted all %d requests and nothing was reported, but the execution was recorded as failed (%s)", ri+1, o.Requests, s.end), "no error", s.end)
+			} else {
+				out.Stat("clean_executions_recorded_without_error", 1)
 			}
 		}
 		sums = append(sums, s)
@@ -341,6 +367,9 @@ func (st *c17State) runRerun(caseID string, pos int, c c17RCase) {
 		prev := sums[ri-1]
 		if prev.killed && prev.end != "terminated" {
 			viol("rerun-after-kill", fmt.Sprintf("run %d was re-executed although run %d was killed (the hub logged its termination, then recorded %q)", ri+1, ri, prev.end), "no re-execution", nexec)
+		}
+		if prev.clean && prev.end != "finished" {
+			viol("rerun-after-success/clean-execution-recorded-failed", fmt.Sprintf("run %d was re-executed although in run %d the sink accepted everything and nothing was reported (recorded as %q)", ri+1, ri, prev.end), "no re-execution", nexec)
 		}
 		switch prev.end {
 		case "finished":
@@ -389,6 +418,9 @@ func (st *c17State) runRerun(caseID string, pos int, c c17RCase) {
 	last := sums[len(sums)-1]
 	if !c.Kill && ((c.Log && last.nrep > 0) || (!c.Log && last.rej > 0)) && res.LastError == "" {
 		viol(c17OutcomeClass(c17Case{}, runs[len(runs)-1]), "the last run had rejected (log handler: reported) entities but the recorded outcome carries no error", "lastError set", res)
+	}
+	if last.clean && last.end != "failed" && last.end != "failed-late" && res.LastError != "" {
+		viol(c17CleanClass(len(sums)-1, c.Transform), fmt.Sprintf("the last run (%d) was clean but the stored outcome carries the error %q", len(sums), res.LastError), "no error", res.LastError)
 	}
 }
 
